@@ -20,6 +20,7 @@ EXPLANATION = (
     "(R3) errors that are not attributable to rows (scalar failure cases / no check_output) are tested for before being "
     "used as row sets (typestate, shared with C06.R3); (R4) in every backend validate the drop is reached only when errors "
     "were collected and the option is set, its result is returned, and otherwise SchemaErrors is raised. (R5) in reshape_failure_cases no dropna() precedes the wide-to-long reshaping step (a row-wise dropna on the wide table loses failing rows that hold a null elsewhere); (R6) the object that the pandas column / index / multi-index backends hand to the delegated validation keeps the labels of the working object (no reset_index(drop=True) / .values / to_numpy), because drop_invalid_rows matches failure-case labels against check_obj.index. " 
+    " (R7) the check_output a polars core check hands over is the single column CHECK_OUTPUT_KEY (select/alias, never a rename inside the frame of all selector-matched columns); (R8) a container validates its components so that a component's own drop_invalid_rows cannot swallow its errors; (R9) pandas drop_invalid_rows compares labels as objects (no eval of their printed form); (R10) the rows to drop derive from the complete check output, not from the failure-case report that n_failure_cases truncates. " 
     "NOT decided: "
     "row-set equality on real data; MultiIndex label round trip through str/eval."
 )
@@ -418,15 +419,15 @@ def r10_rows_from_complete_output(ctx):
     ix = ctx.ix
     f = ix.func("pandera/backends/pandas/base.py::PandasSchemaBackend.drop_invalid_rows")
     ex = Expander(f.node)
-    masks = [c for c in calls_in(f.node) if callee_last(c) == "isin" and c.args]
-    if not masks:
-        raise AnalysisError("pandas drop_invalid_rows: no isin(...) mask found")
-    for c in masks:
-        from_report = any(isinstance(x, ast.Attribute) and x.attr == "failure_cases" for d in ex.closure(c.args[0]) for x in ast.walk(d))
-        ctx.ob("R10", f, "pandas drop_invalid_rows takes the rows to drop from the complete check output", not from_report,
-               "labels derive from the check output" if not from_report else
-               f"`{txt(c)[:60]}` takes the labels from err.failure_cases, the (truncatable) report: Column(int, Check.gt(0, n_failure_cases=1)) on [1,-2,-3,4,-5] "
-               "returns [1,-3,4,-5]", f.loc(c))
+    reads_report = [x for x in walk_no_nested(f.node) if isinstance(x, ast.Attribute) and x.attr == "failure_cases" and isinstance(x.ctx, ast.Load)]
+    reads_output = [x for x in walk_no_nested(f.node) if isinstance(x, ast.Attribute) and x.attr == "check_output" and isinstance(x.ctx, ast.Load)]
+    if not reads_report and not reads_output:
+        raise AnalysisError("pandas drop_invalid_rows reads neither failure_cases nor check_output of the collected errors")
+    from_report = bool(reads_report) and not reads_output
+    ctx.ob("R10", f, "pandas drop_invalid_rows takes the rows to drop from the complete check output", not from_report,
+           "labels derive from the check output" if not from_report else
+           f"`{txt(getattr(reads_report[0], '_parent', reads_report[0]))[:60]}` takes the labels from err.failure_cases, the (truncatable) report: "
+           "Column(int, Check.gt(0, n_failure_cases=1)) on [1,-2,-3,4,-5] returns [1,-3,4,-5]", f.loc(reads_report[0]) if reads_report else None)
 
 
 def run(ctx):
